@@ -181,8 +181,9 @@ _EXE = {}
 def exe_of(qk):
     """qk = 'QT:cap:max' -> built harness"""
     if qk not in _EXE:
-        qt, cap, mx = qk.split(":")
-        _EXE[qk] = sysh.build(qt, int(cap), int(mx))
+        parts = qk.split(":")
+        qt, cap, mx = parts[:3]
+        _EXE[qk] = sysh.build(qt, int(cap), int(mx), asan=(len(parts) > 3 and parts[3] == "asan"))
     return _EXE[qk]
 
 
